@@ -354,7 +354,7 @@ def main(args):
     rep = common.Report('C11', tier)
     rep.assumptions = ASSUMPTIONS
     rep.bounds = {'registries': {n: sum(1 for _ in _flatten(t)) for n, t in trees.items()}, 'sampling': 'seed-rotated (VERIF_SEED) for registries above the per-tier cap'}
-    deadline = time.time() + (330 if tier == 'quick' else common.THOROUGH_S)
+    deadline = time.time() + (common.QUICK_S if tier == 'quick' else common.THOROUGH_S)
 
     def progress(done, total, res):
         if args.verbose:
